@@ -127,6 +127,11 @@ func Tables(small, nested bool, fn func(t any) bool) {
 	// the same columns under names that a writer has to quote or escape (and
 	// that sort differently once encoded): 2-row object tables only
 	quoted := []string{"a", "b c", "c\"d"}
+	// names of which one is the beginning of the others, followed by a character
+	// below the quote: as raw strings they sort a < "a b" < "a!", as encoded text
+	// "a b" < "a!" < "a" (a writer that sorts members one way and columns the
+	// other must still put every cell under its own name)
+	prefixed := []string{"a", "a b", "a!"}
 	emit := func(tbl []any) bool {
 		if !fn(tbl) {
 			return false
@@ -168,6 +173,19 @@ func Tables(small, nested bool, fn func(t any) bool) {
 							q[i] = row
 						}
 						if !emit(q) {
+							return
+						}
+						q2 := make([]any, rows)
+						for i, r := range tbl {
+							row := map[string]any{}
+							for j := 0; j < nc; j++ {
+								if v, has := r.(map[string]any)[cols[j]]; has {
+									row[prefixed[j]] = v
+								}
+							}
+							q2[i] = row
+						}
+						if !emit(q2) {
 							return
 						}
 					}
